@@ -140,6 +140,68 @@ pub fn judge(doc: &Doc, cover: &mut Cover, out: &mut Vec<Violation>) {
 	}
 }
 
+/// Totality probe: the plain spelling of a valid case decorated with an IGNORED attribute (doc,
+/// default, an unknown key; also nested inside it) whose value is a number literal outside the
+/// f64 range or a string with an unpaired surrogate escape. The specification does not say
+/// whether such a document is a valid schema (the reference JSON reader may reject it too), so
+/// only "no panic" is demanded: Ok and Err are both accepted.
+fn totality_probe_docs(case: &AstCase) -> Vec<String> {
+	const SURR: [(&str, &str); 2] = [("@@SURR-HI@@", "\\ud800"), ("@@SURR-LO@@", "\\udc00")];
+	let values: Vec<J> = vec![
+		J::Num("1e999".into()),
+		J::Num("-1E+400".into()),
+		J::Str("@@SURR-HI@@".into()),
+		J::Str("x@@SURR-LO@@y".into()),
+		J::Obj(vec![("deep".into(), J::Arr(vec![J::Num("0".into()), J::Obj(vec![("n".into(), J::Num("1e999".into()))])]))]),
+		J::Arr(vec![J::Obj(vec![("s".into(), J::Str("@@SURR-LO@@".into()))])]),
+	];
+	fn count(j: &J) -> usize {
+		match j {
+			J::Arr(v) => v.iter().map(count).sum(),
+			J::Obj(kv) => 1 + kv.iter().map(|(_, v)| count(v)).sum::<usize>(),
+			_ => 0,
+		}
+	}
+	// decorate the objects selected by `which` (pre-order index), at the end or at the front
+	fn decorate(j: &J, key: &str, val: &J, which: Option<usize>, front: bool, n: &mut usize) -> J {
+		match j {
+			J::Arr(v) => J::Arr(v.iter().map(|e| decorate(e, key, val, which, front, n)).collect()),
+			J::Obj(kv) => {
+				let me = *n;
+				*n += 1;
+				let mut out: Vec<(String, J)> = kv.iter().map(|(k, v)| (k.clone(), decorate(v, key, val, which, front, n))).collect();
+				if which.map_or(true, |w| w == me) {
+					if front {
+						out.insert(0, (key.to_owned(), val.clone()));
+					} else {
+						out.push((key.to_owned(), val.clone()));
+					}
+				}
+				J::Obj(out)
+			}
+			o => o.clone(),
+		}
+	}
+	let plain = spell(&case.ast, &mut vmodel::Zero, &SpellCfg::plain());
+	let j = vmodel::json::parse(&plain).unwrap_or_else(|e| machinery(format!("own speller produced non-JSON {plain}: {e}")));
+	let objects = count(&j);
+	let mut out = Vec::new();
+	for (vi, val) in values.iter().enumerate() {
+		for key in ["doc", "default", "x-ignored"] {
+			let mut whiches: Vec<Option<usize>> = vec![None];
+			whiches.extend((0..objects.min(6)).map(Some));
+			for which in whiches {
+				let mut text = decorate(&j, key, val, which, vi % 2 == 1, &mut 0).to_min_string();
+				for (mark, esc) in SURR {
+					text = text.replace(mark, esc);
+				}
+				out.push(text);
+			}
+		}
+	}
+	out
+}
+
 /// Invalid documents obtained by JSON-level single edits of two spellings of a valid case.
 fn json_edit_docs(case: &AstCase, thorough: bool) -> Vec<(&'static str, String)> {
 	let mut out = Vec::new();
@@ -159,7 +221,7 @@ pub fn run(rep: &mut Report) {
 	let set = sgen::bases(thorough);
 	let plan = sgen::plan(thorough);
 	rep.rule = format!(
-		"SAE. ASTs by a grammar: a named type is a record / enum / fixed in a namespace from {{∅,a,a.b,b}} with simple names X,Y,Z,W by order of definition (or all X = shadowing); a record has either one int field or 1..n 'edge' fields, an edge = wrapper(new named type | reference to any type already defined or enclosing, where the specification can express it); wrappers Id, array, map, [null,T], [T,int], array<map<T>>, map<[null,T]>, [null,array<T>]. Families: {}. Plus hand-written families: every logical type at the root and as record fields, logical types over fixed/enum/record/array/map with second uses by reference, root unions of named records with recursion through union and map (4x4 namespace arrangements). Plus every forward-reference variant of each valid AST (a definition swapped with its first later reference). ASTs containing an unconditional record cycle form an invalid class. Spellings through vmodel::spell: {}. Oracle per valid document: SchemaMut::from_str Ok, node graph bisimilar to the AST (kinds, fullnames and their namespace/name split, field names and symbols in order, sizes, logical types with parameters, every reference on the node index of its definition), hook H1 canonical form = vmodel::pcf(AST) (not for forward references), freeze Ok. Invalid documents: single edits of valid ASTs with <= {} named types (unknown reference by fullname / by simple name / by removing the definition; simple-name reference to a type that exists only in another namespace, at every reference and int site, incl. null-namespace types from inside a namespace; duplicate definition by re-defining at a reference and by renaming a definition to another's fullname; unconditional record cycle directly / through one / through two records) in 5 spellings each; single JSON edits of two spellings (required attribute deleted: type, name, fields, symbols, size, items, values, field type, field name, decimal precision; the bare strings record/array (thorough: record/enum/fixed/array/map) at every schema position): SchemaMut::from_str and Schema::from_str must return Err. Every generated document is first cross-checked against vmodel's own resolver (valid: resolves to the AST; invalid: rejected). Non-trivial: valid documents with >= 1 reference or >= 1 namespace transition, distinct by text.",
+		"SAE. ASTs by a grammar: a named type is a record / enum / fixed in a namespace from {{∅,a,a.b,b}} with simple names X,Y,Z,W by order of definition (or all X = shadowing); a record has either one int field or 1..n 'edge' fields, an edge = wrapper(new named type | reference to any type already defined or enclosing, where the specification can express it); wrappers Id, array, map, [null,T], [T,int], array<map<T>>, map<[null,T]>, [null,array<T>]. Families: {}. Plus hand-written families: every logical type at the root and as record fields, logical types over fixed/enum/record/array/map with second uses by reference, root unions of named records with recursion through union and map (4x4 namespace arrangements). Plus every forward-reference variant of each valid AST (a definition swapped with its first later reference). ASTs containing an unconditional record cycle form an invalid class. Spellings through vmodel::spell: {}. Oracle per valid document: SchemaMut::from_str Ok, node graph bisimilar to the AST (kinds, fullnames and their namespace/name split, field names and symbols in order, sizes, logical types with parameters, every reference on the node index of its definition), hook H1 canonical form = vmodel::pcf(AST) (not for forward references), freeze Ok. Invalid documents: single edits of valid ASTs with <= {} named types (unknown reference by fullname / by simple name / by removing the definition; simple-name reference to a type that exists only in another namespace, at every reference and int site, incl. null-namespace types from inside a namespace; duplicate definition by re-defining at a reference and by renaming a definition to another's fullname; unconditional record cycle directly / through one / through two records) in 5 spellings each; single JSON edits of two spellings (required attribute deleted: type, name, fields, symbols, size, items, values, field type, field name, decimal precision; the bare strings record/array (thorough: record/enum/fixed/array/map) at every schema position): SchemaMut::from_str and Schema::from_str must return Err. Totality probe (no verdict on Ok/Err, a panic is a violation): the plain spelling of every AST with <= 1 named type and of the hand-written families, decorated with an ignored attribute (doc / default / unknown key; at all objects at once and at each of the first 6 objects; first or last key) holding 1e999, -1E+400, a string with an unpaired surrogate escape, or those nested inside an object / array. Every generated document is first cross-checked against vmodel's own resolver (valid: resolves to the AST; invalid: rejected). Non-trivial: valid documents with >= 1 reference or >= 1 namespace transition, distinct by text.",
 		sgen::describe_grammars(thorough),
 		sgen::describe_plan(&plan),
 		if thorough { 3 } else { 2 },
@@ -200,6 +262,30 @@ pub fn run(rep: &mut Report) {
 				cover.count("asts_forward_variants_two_pending", 1);
 			}
 			sgen::spell_and_judge(&fw, &plan, cover, out, &judge);
+		}
+		// totality probe on the small ASTs and the hand-written families
+		if case.expect == Expect::Valid && (case.feats.named <= 1 || !case.family.starts_with('k')) && case.ast.size() <= 30 {
+			for text in totality_probe_docs(case) {
+				if !sgen::room(cover, out) {
+					break;
+				}
+				cover.states += 1;
+				cover.transitions += 1;
+				cover.evaluations += 1;
+				cover.impl_runs += 2;
+				let a = parse_mut(&text);
+				let b = guarded(|| text.parse::<serde_avro_fast::Schema>().map(|_| ()).map_err(|e| e.to_string()));
+				cover.count(if a.is_ok() { "totality_probe_ok" } else { "totality_probe_err_or_panic" }, 1);
+				for (what, panic) in [("SchemaMut::from_str", if let Out::Panic(e) = &a { Some(e.clone()) } else { None }), ("Schema::from_str", if let Out::Panic(e) = &b { Some(e.clone()) } else { None })] {
+					if let Some(e) = panic {
+						out.push(Violation {
+							class: "parse-panic".into(),
+							what: format!("document {text} [{}; an ignored attribute holds an out-of-range number or an unpaired surrogate]: {what} panicked: {e}", case.family),
+							replay: json!({"check": "C07", "kind": "totality", "text": text}),
+						});
+					}
+				}
+			}
 		}
 		if set.derive_invalid_from(case) {
 			for bad in sgen::derived_invalid(case) {
@@ -269,6 +355,12 @@ pub fn run(rep: &mut Report) {
 pub fn replay(v: &serde_json::Value) -> i32 {
 	let r = &v["replay"];
 	let text = r["text"].as_str().unwrap_or_else(|| machinery("replay file has no text".into())).to_owned();
+	if r["kind"] == "totality" {
+		let a = parse_mut(&text);
+		let b = guarded(|| text.parse::<serde_avro_fast::Schema>().map(|_| ()).map_err(|e| e.to_string()));
+		println!("document: {text}\nSchemaMut::from_str: {}\nSchema::from_str: {}\n(only a panic is a violation)", a.kind(), b.kind());
+		return if a.is_panic() || b.is_panic() { 1 } else { 0 };
+	}
 	let expect = sgen::expect_from_str(r["expect"].as_str().unwrap_or("valid"));
 	let ast = match &expect {
 		Expect::Invalid(_) => RSchema::Null,
